@@ -193,6 +193,23 @@ impl Engine for Layout {
         a.exhaustive = true;
         m
     }
+
+    /// A layout case is re-executed by sweeping its (small) shape again: the recorded fact must show up again.
+    fn replay(&self, s: &'static dyn ShapeDyn, case: &serde_json::Value) -> bool {
+        let args = Args { tier: "thorough".into(), out: "/dev/null".into(), props: vec!["C04".into()], replay: None, threads: 1, only: None, rest: vec![] };
+        let accs = self.run(s, &args);
+        let want = case["what"].as_str().unwrap_or("");
+        let mut hit = false;
+        for a in accs.values() {
+            for v in a.violations.values() {
+                println!("{} :: {}", v.key, v.detail);
+                if want.is_empty() || v.key.contains(want) {
+                    hit = true;
+                }
+            }
+        }
+        hit
+    }
 }
 
 fn slot_bytes<'a, 'b>(s: &'a mut harness::guard::Slot<'b>) -> &'a mut [u8] {
